@@ -8,7 +8,7 @@ import (
 
 func init() {
 	register(&Property{ID: "C06", Run: runC06,
-		Explain: "Recipient rules decided on the three routers for every router state and message: (R06.1) the protobuf placed in outgoing RPCs is the accepted msg.Message pointer itself, and (with R03.6, re-evaluated here) no code writes fields of an accepted pb.Message; (R06.2) every send/yield is — through the recipient sets it ranges over — behind the false edges of `peer == msg.ReceivedFrom` and `peer == author`; (R06.3) every recipient is a key of p.topics[topic], a mesh/fanout member, or dominated by a successful lookup in the topic map; (R06.4) the router is handed only non-local messages (single and batch path); (R06.5) mesh/fanout recipients are skipped exactly when they declared the message unwanted; (R06.6) inclusion as implication checks: a direct topic peer, a floodsub-only topic peer at/above the publish threshold, a flood-publish topic peer that is direct or at/above the threshold, and a mesh/fanout member that did not declare the message unwanted can only miss the recipient set on a path that refutes that condition, and a collected recipient is only skipped by the source/author/partial-message exclusions; (R06.7) fanout is used only when the topic is not joined, its lastpub stamp is refreshed on every use, it is re-drawn only when empty, expires only after FanoutTTL without publishing and loses members only when they left the topic or fell below the publish threshold. (R06.3 after the audit round) mesh/fanout members get no exemption: a member that never subscribed or unsubscribed without PRUNE is not a topic peer. NOT decided: that an outbound stream exists, random selection of randomsub beyond RandomSubD, the exact size of the fanout set.",
+		Explain: "Recipient rules decided on the three routers for every router state and message: (R06.1) the protobuf placed in outgoing RPCs is the accepted msg.Message pointer itself, and (with R03.6, re-evaluated here) no code writes fields of an accepted pb.Message; (R06.2) every send/yield is — through the recipient sets it ranges over — behind the false edges of `peer == msg.ReceivedFrom` and `peer == author`; (R06.3) every recipient is a key of p.topics[topic], a mesh/fanout member, or dominated by a successful lookup in the topic map; (R06.4) the router is handed only non-local messages (single and batch path); (R06.5) mesh/fanout recipients are skipped exactly when they declared the message unwanted; (R06.6) inclusion as implication checks: a direct topic peer, a floodsub-only topic peer at/above the publish threshold, a flood-publish topic peer that is direct or at/above the threshold, and a mesh/fanout member that did not declare the message unwanted can only miss the recipient set on a path that refutes that condition, and a collected recipient is only skipped by the source/author/partial-message exclusions; (R06.7) fanout is used only when the topic is not joined, its lastpub stamp is refreshed on every use, it is re-drawn only when empty, expires only after FanoutTTL without publishing and loses members only when they left the topic or fell below the publish threshold. (R06.3 after the audit round) mesh/fanout members get no exemption: a member that never subscribed or unsubscribed without PRUNE is not a topic peer. (second wave) R06.7: the expiry arithmetic is in age form (the sum form overflows). NOT decided: that an outbound stream exists, random selection of randomsub beyond RandomSubD, the exact size of the fanout set.",
 		Assume:  []string{"p.topics[topic] holds exactly the peers known to be in the topic (C05)", "gs.mesh/gs.fanout members are topic peers (C07)"},
 		Mutants: []Mutant{
 			{Name: "fanout-expiry-sum-form", File: "gossipsub.go", Old: "\t\tif now-lastpub > int64(gs.params.FanoutTTL) {", New: "\t\tif lastpub+int64(gs.params.FanoutTTL) < now {", Expect: "R06.7"},
@@ -348,6 +348,15 @@ func runC06(c *RuleCtx) {
 				cut = intersectRefuted(g, direct, ge)
 				ok, why := p.LoopBodyMust(lit, r, cut, insertPred(r))
 				c.Check(ok, "R06.6", f.Name, "flood publish reaches every topic peer that is direct or >= publishThreshold", r, why, "a topic peer that is direct or at/above the publish threshold can be left out of a flood publish: "+why)
+				// "the node's own messages": own means published here — msg.ReceivedFrom is the host — not "names the
+				// host as author" (anonymous messages, WithMessageAuthor and per-publish keys give other authors). The
+				// flood arm is taken exactly under floodPublish && ReceivedFrom == host.ID(): it is dominated by that
+				// test, and no path that establishes both reaches the selective arms instead
+				own := AtomCmp("msg.ReceivedFrom == host.ID()", func(v *V) bool { return v.IsField("Message.ReceivedFrom") }, "==", func(v *V) bool {
+					return v != nil && v.Kind == "call" && strings.HasSuffix(v.Name, ".ID") && v.Has(func(x *V) bool { return x.IsField("PubSub.host") })
+				})
+				okOwn, whyOwn := p.DomAny(lit, r.X, AtomWant{own, true})
+				c.Check(okOwn, "R06.6", f.Name, "flood publish is decided by who published (ReceivedFrom == own ID)", r, whyOwn, "the flood-publish arm is not conditioned on msg.ReceivedFrom == host.ID(): own messages whose author field is not the host ID (anonymous, custom author, per-publish key) are not flood-published, or foreign ones are: "+whyOwn)
 			case rv.IsField(gsField("direct")):
 				nIncl++
 				ok, why := p.LoopBodyMust(lit, r, g.AtomEdges(inTopic, false), insertPred(r))
